@@ -253,9 +253,12 @@ def run(ck: Check):
     ck.pins_changed(PINS)
 
     def size(q, t):
-        """quick size unless thorough tier or escalated (a changed modelled function gets the thorough sizes);
-        once a failing input is on record the verdict is settled and the quick size is enough"""
-        return q if ck.quick and (not ck.escalated or ck.failures) else t
+        """quick size; thorough tier: t; quick tier escalated by a changed modelled function: the thorough size,
+        capped at 8x the quick size (one export is a full session + decompilation: 6000 of them exceed any quick
+        budget on a loaded machine); once a failing input is on record the quick size is enough"""
+        if not ck.quick:
+            return t
+        return q if (not ck.escalated or ck.failures) else min(t, 8 * q)
     ok_gen = ck.run_gen("paths")
     ck.prove(exes=["drv_C37"])
     try:
@@ -303,6 +306,8 @@ def run(ck: Check):
                 "form_raw": 0, "form_png": 0}
         seen, samples = set(), []
         for i in range(n_exp):
+            if ck.quick and ck.failures and i >= 160:    # escalated run: the verdict is settled, stop at the quick size
+                break
             case = rand_case(rng)
             res = run_export(case, sandbox)
             names = [from_cps(c) for c, _ in case["classes"]] + [from_cps(m) for _, ms in case["classes"] for m in ms]
